@@ -118,12 +118,24 @@ def build_coq(prop, log, tier="quick"):
         pf = "Props/%s.v" % prop
         text = open(os.path.join(COQ, pf)).read()
         theorems = re.findall(r"^Theorem\s+(\w+)", text, flags=re.M)
-        rc, out = sh("timeout 3000 make -j16 Props/%s.vo Extract.vo 2>&1" % prop, cwd=COQ, timeout=3100)
+        def where_of(o):
+            m = re.search(r'File "([^"]+)", line (\d+), characters [\d-]+:\s*\n\s*Error', o) or re.search(r'File "([^"]+)", line (\d+)', o)
+            return ("%s:%s" % (m.group(1), m.group(2))) if m else "make"
+        # the property's own theorems (and everything they depend on) first ...
+        rc, out = sh("timeout 3000 make -j16 Props/%s.vo 2>&1" % prop, cwd=COQ, timeout=3100)
         log.append(out)
         if rc != 0:
-            m = re.search(r'File "([^"]+)", line (\d+), characters [\d-]+:\s*\n\s*Error', out) or re.search(r'File "([^"]+)", line (\d+)', out)
-            where = ("%s:%s" % (m.group(1), m.group(2))) if m else "make"
-            return False, len(theorems), 0, [], ["coq build failed at " + where], out
+            return False, len(theorems), 0, [], ["coq build failed at " + where_of(out)], out
+        # ... then the extraction of the whole model.  A failure in a file this property's theorems do not depend on
+        # (it would have shown above) is not this property's broken obligation: the last extracted model is used and
+        # the fact is recorded; the properties that do depend on the file report it.
+        rc, xout = sh("timeout 3000 make -j16 Extract.vo 2>&1", cwd=COQ, timeout=3100)
+        log.append(xout)
+        if rc != 0:
+            if not os.path.exists(os.path.join(COQ, "extracted", "model.ml")):
+                return False, len(theorems), 0, [], ["coq build failed at " + where_of(xout)], xout
+            stale.append("extraction: the model no longer builds at %s (outside this property's theorems); the last extracted "
+                         "model is used for the correspondence streams" % where_of(xout))
         # re-run the Props file itself to collect Print Assumptions every time
         os.makedirs(os.path.join(WORK, "props"), exist_ok=True)
         rc, out = sh("timeout 600 coqc -Q . Flussab -o %s/props/%s.vo %s 2>&1" % (WORK, prop, pf), cwd=COQ)
